@@ -437,7 +437,14 @@ fn substring(
 }
 
 fn round_half_up(value: f64) -> f64 {
-    (value + 0.5).floor()
+    // The integer closest to the argument, the one closer to positive infinity on a tie.
+    // `value - floor` is exact, unlike `value + 0.5` (0.49999999999999994 + 0.5 is 1).
+    let floor = value.floor();
+    if value - floor >= 0.5 {
+        floor + 1.0
+    } else {
+        floor
+    }
 }
 
 fn string_length(
